@@ -164,6 +164,16 @@ func runC18(c c18Case, rec *stat.Rec) *stat.Failure {
 		out = append(out, buf[:n]...)
 		if err != nil {
 			final = err
+			// what the stream ended with, it keeps ending with ("followed by io.EOF"; "an error from the source is passed
+			// through"): two more calls must deliver nothing and the same verdict (io.EOF stays io.EOF itself)
+			for k := 0; k < 2; k++ {
+				n2, err2 := cr.Read(buf[:maxI(sz, 1)])
+				same := err2 != nil && (err2 == err || (err != io.EOF && errors.Is(err2, failWant(c.FailKind))))
+				if n2 != 0 || !same {
+					return stat.Failf("C18/end-of-stream-is-not-sticky/"+errClass(err), "%s returned (%d, %v); call %d after that returned (%d, %v)", desc, n, err, k+1, n2, err2)
+				}
+			}
+			rec.Class("end-is-sticky-checked")
 			break
 		}
 		if n == 0 {
